@@ -71,7 +71,7 @@ def run(prop, tier, seed, known):
     from mir_eval import hierarchy as Hm
     rng = random.Random(seed)
     from ._tag import Fails
-    fails = Fails(prop, (('triplet definition', ('C17',)), ('is cut at', ('C12',)), ('hierarchy.evaluate', ('C17', 'C03')),
+    fails = Fails(prop, (('exchanging reference', ('C06', 'C17')), ('triplet definition', ('C17',)), ('is cut at', ('C12',)), ('hierarchy.evaluate', ('C17', 'C03')),
                          ('tmeasure accepted', ('C17', 'C14')), ('instead of ValueError', ('C17', 'C14')), ('on a valid input', ('C17', 'C14'))))
     n = 0
     t0 = time.time()
@@ -84,7 +84,18 @@ def run(prop, tier, seed, known):
     def hierarchy(end):
         L = rng.randint(1, 3)
         h = [level(1 if (lv == 0 and rng.random() < 0.6) else rng.randint(1, 2 + lv), end) for lv in range(L)]
+        r_ = rng.random()
+        if r_ < 0.2 and end >= 2.0:
+            # a top level with a segment exactly one (coarse) frame long, possibly labelled like nothing else
+            a_ = rng.choice([0.0, 1.0, end - 1.0])
+            cuts_ = sorted({0.0, a_, a_ + 1.0, end})
+            h[0] = [[cuts_[k_], cuts_[k_ + 1]] for k_ in range(len(cuts_) - 1)]
+        elif r_ < 0.4 and L >= 2:
+            # two levels with identical segments (their labels will differ)
+            h[1] = [list(iv_) for iv_ in h[0]]
         labs = [[rng.choice(['a', 'b', 'c', 'A']) for _ in lv] for lv in h]
+        if r_ < 0.2 and len(h[0]) >= 2:
+            labs[0][[iv_[0] for iv_ in h[0]].index(a_)] = 'solo'
         if rng.random() < 0.25:
             # the segments of a level listed out of chronological order (valid: a level is a set of labelled intervals)
             for k_ in range(L):
@@ -95,7 +106,7 @@ def run(prop, tier, seed, known):
         return h, labs
     with warnings.catch_warnings():
         warnings.simplefilter('ignore')
-        for it in range(60 if tier == 'quick' else 800):
+        for it in range(200 if tier == 'quick' else 1500):
             end = rng.choice([3.0, 4.0, 5.0])
             rh, rl = hierarchy(end)
             eh, el = hierarchy(end)
@@ -117,6 +128,19 @@ def run(prop, tier, seed, known):
             want = (P, R, fbeta(P, R, beta))
             if any(abs(a - b) > 1e-9 for a, b in zip(got, want)) or any(not (0 <= x <= 1) for x in got):
                 fails.append('tmeasure(ref=%s, est=%s, transitive=%s, window=%s, frame_size=%s) = %s, triplet definition gives %s' % (rh, eh, transitive, window, fs, got, want))
+            # C06: exchanging the two hierarchies exchanges precision and recall and keeps F at beta = 1
+            try:
+                gsw = tuple(float(x) for x in Hm.tmeasure(ea, ra, transitive=transitive, window=window, frame_size=fs, beta=1.0))
+                g1 = tuple(float(x) for x in Hm.tmeasure(ra, ea, transitive=transitive, window=window, frame_size=fs, beta=1.0))
+                if abs(g1[0] - gsw[1]) > 1e-9 or abs(g1[1] - gsw[0]) > 1e-9 or abs(g1[2] - gsw[2]) > 1e-9:
+                    fails.append('tmeasure: exchanging reference and estimate does not exchange precision and recall: %s vs %s (ref %s, est %s, window=%s, frame_size=%s)'
+                                 % (g1, gsw, rh, eh, window, fs))
+                l1 = tuple(float(x) for x in Hm.lmeasure(ra, rl, ea, el, frame_size=fs, beta=1.0))
+                lsw = tuple(float(x) for x in Hm.lmeasure(ea, el, ra, rl, frame_size=fs, beta=1.0))
+                if abs(l1[0] - lsw[1]) > 1e-9 or abs(l1[1] - lsw[0]) > 1e-9 or abs(l1[2] - lsw[2]) > 1e-9:
+                    fails.append('lmeasure: exchanging reference and estimate does not exchange precision and recall: %s vs %s (ref %s %s, est %s %s)' % (l1, lsw, rh, rl, eh, el))
+            except Exception as ex:
+                fails.append('tmeasure / lmeasure raised %s on a valid input with the roles exchanged' % type(ex).__name__)
             gotl = tuple(float(x) for x in Hm.lmeasure(ra, rl, ea, el, frame_size=fs, beta=beta))
             Rl = gauc(meet_matrix(rh, rl, fs), meet_matrix(eh, el, fs), True, None)
             Pl = gauc(meet_matrix(eh, el, fs), meet_matrix(rh, rl, fs), True, None)
